@@ -6,13 +6,18 @@ import (
 	"io"
 	"math/rand"
 	"os"
+	"runtime"
 	"strconv"
+	"strings"
+	"sync"
+	"sync/atomic"
 	"testing"
 	"testing/synctest"
 	"time"
 
 	"garrshim/vchan"
 	"garrshim/vsched"
+	"garrshim/vsync"
 )
 
 // TestShimSemantics validates a part of the trusted base of the step-level pool tie (harness/poolstep): the shim that replaces Go's
@@ -244,4 +249,172 @@ func containsPanic(s string) bool {
 		}
 	}
 	return false
+}
+
+// ---- the shim's writer-preferring RWMutex against sync.RWMutex (the pool's submitLock: Stop announces itself, later submitters wait,
+// TryDo's TryRLock fails while Stop holds or AWAITS the lock). One scenario, run on the real runtime with real goroutines (a goroutine
+// "waits" when its stack shows it parked inside the lock call) and on the shim under the token scheduler:
+//   A: RLock | W: Lock (must wait for A) | B: TryRLock -> false (a writer is pending) | C: RLock (must wait behind the pending writer)
+//   A: RUnlock -> W acquires, C still waits | B: TryRLock -> false (a writer holds) | W: Unlock -> C acquires | B: TryRLock -> true
+func parkedIn(fn string) int {
+	buf := make([]byte, 1<<20)
+	n := runtime.Stack(buf, true)
+	c := 0
+	for _, g := range strings.Split(string(buf[:n]), "\n\n") {
+		if strings.Contains(g, fn+"(") && (strings.Contains(g, "[sync.RWMutex.Lock") || strings.Contains(g, "[sync.RWMutex.RLock") || strings.Contains(g, "[semacquire") || strings.Contains(g, "[sync.Mutex.Lock")) {
+			c++
+		}
+	}
+	return c
+}
+
+func waitUntil(cond func() bool) bool {
+	for i := 0; i < 20000; i++ {
+		if cond() {
+			return true
+		}
+		time.Sleep(100 * time.Microsecond)
+	}
+	return false
+}
+
+func realRWScenario() (obs []string, conclusive bool) {
+	var mu sync.RWMutex
+	var wHas, cHas atomic.Bool
+	wRelease := make(chan struct{})
+	cRelease := make(chan struct{})
+	done := make(chan struct{}, 2)
+	mu.RLock() // A
+	go func() { mu.Lock(); wHas.Store(true); <-wRelease; mu.Unlock(); done <- struct{}{} }()
+	if !waitUntil(func() bool { return parkedIn("sync.(*RWMutex).Lock") == 1 }) {
+		close(wRelease)
+		mu.RUnlock()
+		return nil, false
+	}
+	obs = append(obs, fmt.Sprintf("writer waits while a reader holds: %v", !wHas.Load()))
+	obs = append(obs, fmt.Sprintf("TryRLock with a pending writer: %v", tryR(&mu)))
+	go func() { mu.RLock(); cHas.Store(true); <-cRelease; mu.RUnlock(); done <- struct{}{} }()
+	if !waitUntil(func() bool { return parkedIn("sync.(*RWMutex).RLock") == 1 }) {
+		// (if the reader was admitted instead of parked it shows here)
+		obs = append(obs, fmt.Sprintf("new reader admitted past a pending writer: %v", cHas.Load()))
+	} else {
+		obs = append(obs, fmt.Sprintf("new reader waits behind a pending writer: %v", !cHas.Load()))
+	}
+	mu.RUnlock() // A leaves
+	if !waitUntil(wHas.Load) {
+		return obs, false
+	}
+	obs = append(obs, fmt.Sprintf("writer acquires when the readers have left: %v; the waiting reader still waits: %v", wHas.Load(), !cHas.Load()))
+	obs = append(obs, fmt.Sprintf("TryRLock while a writer holds: %v", tryR(&mu)))
+	close(wRelease)
+	if !waitUntil(cHas.Load) {
+		return obs, false
+	}
+	obs = append(obs, fmt.Sprintf("waiting reader acquires after Unlock: %v", cHas.Load()))
+	obs = append(obs, fmt.Sprintf("TryRLock next to a reader, no writer: %v", tryR(&mu)))
+	close(cRelease)
+	<-done
+	<-done
+	return obs, true
+}
+
+func tryR(mu *sync.RWMutex) bool {
+	if mu.TryRLock() {
+		mu.RUnlock()
+		return true
+	}
+	return false
+}
+
+func shimRWScenario() (obs []string) {
+	vsync.StepLevel = true
+	defer func() { vsync.StepLevel = false }()
+	var mu vsync.RWMutex
+	wHas, cHas := false, false
+	phase := 0 // advanced by the driver thread; W and C release when told
+	tryS := func() bool {
+		if mu.TryRLock() {
+			mu.RUnlock()
+			return true
+		}
+		return false
+	}
+	var wPending func() bool
+	bodies := []func(){
+		// 0: driver = A and B
+		func() {
+			mu.RLock()
+			phase = 1
+			vsched.BlockOn(func() bool { return wPending() })
+			obs = append(obs, fmt.Sprintf("writer waits while a reader holds: %v", !wHas))
+			obs = append(obs, fmt.Sprintf("TryRLock with a pending writer: %v", tryS()))
+			phase = 2
+			// give C every chance to get in: it must not
+			for i := 0; i < 5; i++ {
+				vsched.Point()
+			}
+			obs = append(obs, fmt.Sprintf("new reader waits behind a pending writer: %v", !cHas))
+			mu.RUnlock()
+			vsched.BlockOn(func() bool { return wHas })
+			obs = append(obs, fmt.Sprintf("writer acquires when the readers have left: %v; the waiting reader still waits: %v", wHas, !cHas))
+			obs = append(obs, fmt.Sprintf("TryRLock while a writer holds: %v", tryS()))
+			phase = 3
+			vsched.BlockOn(func() bool { return cHas })
+			obs = append(obs, fmt.Sprintf("waiting reader acquires after Unlock: %v", cHas))
+			obs = append(obs, fmt.Sprintf("TryRLock next to a reader, no writer: %v", tryS()))
+			phase = 4
+		},
+		// 1: W
+		func() {
+			vsched.BlockOn(func() bool { return phase >= 1 })
+			mu.Lock()
+			wHas = true
+			vsched.BlockOn(func() bool { return phase >= 3 })
+			mu.Unlock()
+		},
+		// 2: C
+		func() {
+			vsched.BlockOn(func() bool { return phase >= 2 })
+			mu.RLock()
+			cHas = true
+			vsched.BlockOn(func() bool { return phase >= 4 })
+			mu.RUnlock()
+		},
+	}
+	wPending = func() bool { return mu.WriterPending() }
+	rr := 0
+	vsched.Run(bufio.NewWriter(io.Discard), map[string]bool{vsync.Layer: true}, bodies, 100000, func(runnable []int, step int) int {
+		if len(runnable) == 0 {
+			return -1
+		}
+		rr++
+		return runnable[rr%len(runnable)]
+	})
+	return obs
+}
+
+func TestShimRWMutex(t *testing.T) {
+	rounds, _ := strconv.Atoi(os.Getenv("POOL_RUNS"))
+	monf, err := os.Create(os.Getenv("POOL_MON"))
+	if err != nil {
+		t.Fatal(err)
+	}
+	mon := bufio.NewWriter(monf)
+	defer func() { mon.Flush(); monf.Close() }()
+	fmt.Fprintf(mon, "RUN 0 RWMutex scenario (reader, pending writer, TryRLock, late reader) on sync.RWMutex with real goroutines and on the cooperative shim; %d rounds\n", rounds)
+	shim := shimRWScenario()
+	ok, inconclusive := 0, 0
+	for r := 0; r < rounds; r++ {
+		real, conclusive := realRWScenario()
+		if !conclusive {
+			inconclusive++ // a goroutine was not seen parked within the time limit (loaded machine): nothing is concluded
+			continue
+		}
+		if fmt.Sprint(real) != fmt.Sprint(shim) {
+			fmt.Fprintf(mon, "MON 0 FAIL C04,C08,C11,C12,C17 the RWMutex shim of the step-level pool tie disagrees with sync.RWMutex: runtime %q, shim %q\n", real, shim)
+			return
+		}
+		ok++
+	}
+	fmt.Fprintf(mon, "MON 0 ok subs=%d conclusive=%d inconclusive=%d\n", rounds, ok, inconclusive)
 }
